@@ -146,7 +146,7 @@ mod vk_vec {
         chk_ledger(len, owned_from, &delivered);
     }
 
-    // @harness name=vec_ledger_skip props=C08,C06,C10 kind=bounded bound="len <= 3; c over the full usize domain"
+    // @harness name=vec_ledger_skip props=C08,C15,C06,C10 kind=bounded bound="len <= 3; c over the full usize domain"
     #[kani::proof]
     #[kani::unwind(5)]
     fn vec_ledger_skip() {
